@@ -14,5 +14,5 @@ PROP = dict(
 META = dict(
     technique="Lean 4 proof over the input-parser model for every text, every partition into reads and every key table satisfying decidable conditions (discharged for all database entries by kernel evaluation); decoder laws proved for the UTF-8 model and validated exhaustively on the real charset decoders; differential correspondence + property oracle through the verif parser hook",
     text="Tcell.Props.C11 proves `stream_delivery`: any sequence of characters, bracketed-paste markers and focus reports, split into reads arbitrarily (also inside a multi-byte character or a marker), yields exactly one event per item in order with nothing left buffered; instances `utf8_text` (decoder model proved law-abiding for all scalar values), `codec_text`/`table_text` (any decoder obeying CodecLaws; single-byte charsets), `multibyte_text_repaired`, `paste_bracket`, `focus_reports`; `multibyte_law_fails_pinned` + `gbk_ni_lost_pinned` show that the pinned parseRune (atEOF=true) loses every multi-byte legacy character. The engine `text` checks each codec law for every character of every stateless registered charset on the real parser (one byte per read and whole), and feeds random texts x partitions x paste/focus markers on entries with and without paste/focus support to the real parser and the model; the oracle compares the delivered runes/markers with what was sent.",
-    note="Findings: text-multibyte-lost / codec-law-short (parseRune passes atEOF=true; fix fixes/C11-parserune-ateof.patch); focus-report-lost on the rxvt entries (Ctrl-arrow strings `ESC [ O a..d` shadow the focus-out report; fix fixes/C11-rxvt-ctrl-arrows.patch).",
+    note="Findings: text-multibyte-lost / codec-law-short (parseRune passes atEOF=true; fix fixes/C11-parserune-ateof.patch); focus-report-lost on the rxvt entries (Ctrl-arrow strings `ESC [ O a..d` shadowed the focus-out report; fixed in /repo by 7758baa).",
 )
